@@ -74,6 +74,7 @@ MASKS4 = ["255.255.255.0", "255.255.255.252", "0.0.0.255", "255.255.0.0", "0.0.0
           "128.0.0.0"]
 
 LINES_A4 = [
+    ["lit: range ", "a4", "lit:-", "a4", "lit: overload"],          # first-last ranges, in either numeric order
     ["lit:ip address ", "a4", "lit: ", "k4"],
     ["lit: neighbor ", "a4", "lit: remote-as 65001"],
     ["lit:ip route ", "a4", "lit: ", "k4", "lit: ", "a4"],
@@ -86,6 +87,7 @@ LINES_A4 = [
     ["a4", "lit:,", "a4"],
 ]
 LINES_A6 = [
+    ["lit: ipv6 local pool P1 ", "a6", "lit:-", "a6"],
     ["lit:ipv6 address ", "a6p"],
     ["lit: neighbor ", "a6", "lit: remote-as 65001"],
     ["lit:ipv6 route ", "a6p", "lit: ", "a6"],
@@ -360,6 +362,7 @@ TEMPLATES = [
     ("\"PreSharedKey\": \"{}\",", ("aws",), "keep"),
     # scrub forms: the whole remainder is replaced by the marker
     ("cable shared-secret {}", ALL, "scrub"),
+    ("set system root-encrypted-password {}", ALL, "scrub"),
     ("wpa-psk ascii {}", ALL, "scrub"),
     ("ldap-login-password x{}", ALL, "scrub"),
     ("failover key {}", ALL, "keep"),
